@@ -120,6 +120,7 @@ fn bfs(st: &Stats, name: &str, max_depth: Option<u32>, state_cap: usize) {
         // on a broken tree nearly every transition is a violation and every wrong result is a new state: stop
         // working on a level as soon as enough violations have been seen
         let seen_viol = std::sync::atomic::AtomicU64::new(kept_violations);
+        let new_found = std::sync::atomic::AtomicU64::new(0);
         let results: Vec<(Vec<(usize, usize, Operation, MP, u32)>, Vec<Violation>, u64)> = (0..n)
             .into_par_iter()
             .map(|x| {
@@ -127,7 +128,7 @@ fn bfs(st: &Stats, name: &str, max_depth: Option<u32>, state_cap: usize) {
                 let mut viol = vec![];
                 let mut t = 0u64;
                 let mut local_seen: std::collections::HashSet<Vec<u64>> = Default::default();
-                if seen_viol.load(std::sync::atomic::Ordering::Relaxed) >= 2000 {
+                if seen_viol.load(std::sync::atomic::Ordering::Relaxed) >= 2000 || new_found.load(std::sync::atomic::Ordering::Relaxed) as usize > state_cap {
                     return (news, viol, t);
                 }
                 for y in 0..n {
@@ -151,6 +152,7 @@ fn bfs(st: &Stats, name: &str, max_depth: Option<u32>, state_cap: usize) {
                             // start of this level (the index is read-only here) and new within this task
                             let k = key_of(&r);
                             if !index.contains_key(&k) && local_seen.insert(k) {
+                                new_found.fetch_add(1, std::sync::atomic::Ordering::Relaxed);
                                 news.push((x, y, op, r, want));
                             }
                         }
